@@ -5,6 +5,7 @@ package main
 
 import (
 	"bytes"
+	"encoding/json"
 	"fmt"
 	"math/rand"
 	"net"
@@ -17,6 +18,7 @@ import (
 
 	"github.com/btcsuite/btcwallet/walletdb"
 	_ "github.com/btcsuite/btcwallet/walletdb/bdb"
+	"github.com/lightninglabs/neutrino"
 	"github.com/lightninglabs/neutrino/banman"
 
 	c "verifharness/internal/common"
@@ -459,10 +461,40 @@ func main() {
 	a := c.ParseArgs()
 	rep := c.NewReport("C13", a)
 	var hs []History
+	var ps []PubHistory
 	if a.Replay != "" {
-		var h History
-		c.ReadJSON(a.Replay, &h)
-		hs = []History{h}
+		// a hist-<id>.json file, or a replay file of ./check (the history
+		// is its "history" member)
+		raw, err := os.ReadFile(a.Replay)
+		if err != nil {
+			panic(err)
+		}
+		var wrap struct {
+			History json.RawMessage `json:"history"`
+		}
+		if json.Unmarshal(raw, &wrap) == nil && len(wrap.History) > 0 {
+			raw = wrap.History
+		}
+		var probe struct {
+			Public bool `json:"public"`
+		}
+		if err := json.Unmarshal(raw, &probe); err != nil {
+			panic(err)
+		}
+		if probe.Public {
+			var p PubHistory
+			if err := json.Unmarshal(raw, &p); err != nil {
+				panic(err)
+			}
+			p.Fail = ""
+			ps = []PubHistory{p}
+		} else {
+			var h History
+			if err := json.Unmarshal(raw, &h); err != nil {
+				panic(err)
+			}
+			hs = []History{h}
+		}
 	} else {
 		n, nops, ntimed := 48, 30, 12
 		if a.Tier == "thorough" {
@@ -472,7 +504,21 @@ func main() {
 			r := c.Rng(a.Seed, i)
 			hs = append(hs, genHistory(r, i, nops, i < ntimed))
 		}
+		// public-entry family (ChainService.IsBanned / BanPeer / UnbanPeer)
+		np, npops, nptimed := 24, 36, 10
+		if a.Tier == "thorough" {
+			np, npops, nptimed = 200, 50, 60
+		}
+		for i := 0; i < np; i++ {
+			id := pubIDBase + i
+			ps = append(ps, genPublic(c.Rng(a.Seed, id), id, npops, i < nptimed))
+		}
+		// the fixed regression history (started first: it ends with a sleep)
+		ps = append([]PubHistory{fixedPublic(pubIDBase + np)}, ps...)
 	}
+	// bans of the public family last pubBan (package variable; the store
+	// histories pass their own durations)
+	neutrino.BanDuration = pubBan
 	work, err := os.MkdirTemp(a.Out, "db")
 	if err != nil {
 		panic(err)
@@ -481,6 +527,23 @@ func main() {
 
 	var wg sync.WaitGroup
 	sem := make(chan struct{}, a.Workers)
+	var env *pubEnv
+	if len(ps) > 0 {
+		env = newPubEnv(work)
+	}
+	for i := range ps {
+		if env.fail != "" {
+			ps[i].Fail = env.fail
+			continue
+		}
+		wg.Add(1)
+		sem <- struct{}{}
+		go func(h *PubHistory) {
+			defer wg.Done()
+			defer func() { <-sem }()
+			runPublic(h, env.cl.CS)
+		}(&ps[i])
+	}
 	for i := range hs {
 		wg.Add(1)
 		sem <- struct{}{}
@@ -491,6 +554,11 @@ func main() {
 		}(&hs[i])
 	}
 	wg.Wait()
+	if env != nil {
+		if f := env.close(); f != "" {
+			ps[0].Fail = f
+		}
+	}
 
 	// Parse and codec cases: every distinct (parsed, mask) and network seen.
 	type pc struct{ parsed, mask, ip, nmask []byte; perr, hasMask bool }
@@ -563,6 +631,7 @@ func main() {
 		rep.Cases[fmt.Sprint(hs[i].ID)] = path
 	}
 	sb.WriteString("].\n")
+	sb.WriteString(publicSection(ps, rep, a.Out, nontrivial))
 
 	// parse cases: (parsed, mask option, expected net option)
 	sb.WriteString("Definition parse_cases : list (bytes * option bytes * option ipnet) := [\n")
@@ -610,7 +679,7 @@ func main() {
 		sb.WriteString(fmt.Sprintf("(%s, %s, %s)", netTerm(ipb, mb), enc, dec))
 	}
 	sb.WriteString("].\n")
-	sb.WriteString("Definition R := Eval vm_compute in (run_cases cases ++ map (fun i => (i, 3, 0, 0)) (parse_mismatches parse_cases) ++ map (fun i => (i, 4, 0, 0)) (codec_mismatches codec_cases)).\nSet Printing Width 1000000.\nSet Printing Depth 1000000.\nPrint R.\n")
+	sb.WriteString("Definition R := Eval vm_compute in (run_cases cases ++ run_pcases pcases ++ map (fun i => (i, 3, 0, 0)) (parse_mismatches parse_cases) ++ map (fun i => (i, 4, 0, 0)) (codec_mismatches codec_cases)).\nSet Printing Width 1000000.\nSet Printing Depth 1000000.\nPrint R.\n")
 	c.WriteFile(filepath.Join(a.Out, "cases.v"), sb.String())
 
 	// Independent implementation-side check: all spellings of one IP hit
@@ -627,9 +696,9 @@ func main() {
 	rep.Histogram["parse_cases"] = len(parseSeen)
 	rep.Histogram["codec_cases"] = len(codecSeen)
 	rep.Histogram["distinct_signatures"] = len(sigs)
-	rep.Evaluations = len(hs)
+	rep.Evaluations = len(hs) + len(ps)
 	rep.DistinctNontrivial = len(nontrivial)
-	rep.Rule = "histories of ban/unban/status/reopen(/sleep) over 8 addresses in random spellings and masks, executed on the real bbolt-backed banman.Store with the real clock; a history is non-trivial when it contains a ban, a status answered banned and a status answered not banned; distinct = distinct op-kind signature"
+	rep.Rule = "histories of ban/unban/status/reopen(/sleep) over 8 addresses in random spellings and masks, executed on the real bbolt-backed banman.Store with the real clock; a history is non-trivial when it contains a ban, a status answered banned and a status answered not banned; distinct = distinct op-kind signature; public-entry family: histories of ChainService.IsBanned/BanPeer/UnbanPeer on a real ChainService (no peers, 1.2 s bans) with 2-3 addresses looked up under several spellings before being banned under another and under all of them after every ban/unban/lapse; non-trivial when it contains a ban, an IsBanned answered true and one answered false"
 	for i := 0; i < len(hs) && i < 3; i++ {
 		rep.Samples = append(rep.Samples, hs[i])
 	}
